@@ -1,1 +1,236 @@
-import GeoModel
+/-
+  Property C02 (intersects) — the parts that are exact.
+
+  PROVED
+  * Rect × Rect: `rect_intersects_rect_iff` (⇔ a common point, for well-formed rectangles; the
+    direction "common point ⇒ intersects" needs no hypothesis), `rect_intersects_symm`.
+  * Line × Line (un-indexed series whose rectangle is the one of `processPoints`, i.e. built by
+    `mkSeries … .none _` / `mkSeries … _ 0`: predicate `GL.Plain`): `lineIntersectsLine_iff`
+    (⇔ some segment of one meets some segment of the other, `SegsMeet` = share a point),
+    `lineIntersectsLine_symm`.
+  * Point receiver / argument: `point_intersects_iff` (the four equations),
+    `geom_intersects_symm_pointrect`.
+  * `geom_intersects_dispatch_symm`: Line×Poly, Rect×Line, Rect×Poly — the two argument orders
+    run THE SAME computation; `geom_intersects_symm_partial`: symmetry of `Geom.intersects` on
+    every pair of kinds except Poly × Poly (lines `Plain`).
+  * ring × segment, soundness of `true`: `ringIntersectsSegment_sound` — a `true` answer
+    always exhibits a point of the segment lying in the closed region of the ring (membership of
+    the accepted endpoint is taken from the C01 characterisation as hypothesis `hmem`).
+
+  NOT PROVED (out of scope): completeness of the `false` answers of ring × segment
+  (`ringIntersectsSegment = false → no common point`), and therefore the exactness of
+  Ring×Ring, Ring×Line, Poly×anything beyond the dispatch facts: a segment with both endpoints
+  outside that has no common point with the boundary misses the region — a discrete Jordan-curve
+  statement.  Symmetry of Poly × Poly (depends on it as well).
+-/
+import GeoProofs.GeomLemmas
+
+namespace Geo
+open GL
+
+/-! ## Rect × Rect -/
+
+theorem rect_intersects_rect_iff (r o : Box)
+    (hr : r.min.x ≤ r.max.x ∧ r.min.y ≤ r.max.y) (ho : o.min.x ≤ o.max.x ∧ o.min.y ≤ o.max.y) :
+    r.intersects o = true ↔ ∃ p : Pt, r.containsPt p = true ∧ o.containsPt p = true := by
+  constructor
+  · intro h
+    rw [intersects_iff] at h
+    obtain ⟨h1, h2, h3, h4⟩ := h
+    refine ⟨⟨max r.min.x o.min.x, max r.min.y o.min.y⟩, ?_, ?_⟩
+    · rw [containsPt_iff]
+      exact ⟨le_max_left _ _, max_le hr.1 h4, le_max_left _ _, max_le hr.2 h2⟩
+    · rw [containsPt_iff]
+      exact ⟨le_max_right _ _, max_le h3 ho.1, le_max_right _ _, max_le h1 ho.2⟩
+  · rintro ⟨p, h1, h2⟩
+    exact intersects_of_common r o p h1 h2
+
+/-- the well-formedness hypothesis cannot be dropped -/
+theorem rect_intersects_rect_illformed :
+    (Box.mk ⟨2, 2⟩ ⟨1, 1⟩).intersects (Box.mk ⟨0, 0⟩ ⟨3, 3⟩) = true ∧
+    ¬ ∃ p : Pt, (Box.mk ⟨2, 2⟩ ⟨1, 1⟩).containsPt p = true ∧ (Box.mk ⟨0, 0⟩ ⟨3, 3⟩).containsPt p = true := by
+  refine ⟨by decide +kernel, ?_⟩
+  rintro ⟨p, h, -⟩
+  rw [containsPt_iff] at h
+  obtain ⟨a1, a2, -, -⟩ := h
+  simp only at a1 a2
+  linarith
+
+theorem rect_intersects_symm (r o : Box) : r.intersects o = o.intersects r := by
+  rw [Bool.eq_iff_iff, intersects_iff, intersects_iff]
+  constructor <;> rintro ⟨a, b, c, d⟩ <;> exact ⟨b, a, d, c⟩
+
+/-! ## Line × Line -/
+
+/-- the nested any-loop of `Line.intersectsLine` -/
+theorem anyMeet_iff (l m : Line) (hm : m.index = none) :
+    (List.range l.numSegments).any (fun i =>
+      (Ring.ser m).searchAny (l.segmentAt i).box (fun segB _ => (l.segmentAt i).intersects segB)) = true ↔
+    ∃ i, i < l.numSegments ∧ ∃ j, j < m.numSegments ∧
+      SegsMeet (l.segmentAt i).a (l.segmentAt i).b (m.segmentAt j).a (m.segmentAt j).b := by
+  rw [List.any_eq_true]
+  constructor
+  · rintro ⟨i, hi, h⟩
+    rw [ring_searchAny_iff (.ser m) hm] at h
+    obtain ⟨j, hj, -, hp⟩ := h
+    exact ⟨i, List.mem_range.1 hi, j, hj, (segIntersects_iff _ _).1 hp⟩
+  · rintro ⟨i, hi, j, hj, h⟩
+    refine ⟨i, List.mem_range.2 hi, ?_⟩
+    rw [ring_searchAny_iff (.ser m) hm]
+    exact ⟨j, hj, segBoxes_intersect_of_meet h, (segIntersects_iff _ _).2 h⟩
+
+theorem lineIntersectsLine_iff (l m : Line) (hl : Plain l) (hm : Plain m) :
+    l.intersectsLine m = true ↔
+      ∃ i, i < l.numSegments ∧ ∃ j, j < m.numSegments ∧
+        SegsMeet (l.segmentAt i).a (l.segmentAt i).b (m.segmentAt j).a (m.segmentAt j).b := by
+  unfold Line.intersectsLine
+  split_ifs with h1 h2 hn
+  · -- one of the two is empty: no segment
+    refine iff_of_false (by simp) ?_
+    rintro ⟨i, hi, j, hj, -⟩
+    simp only [Bool.or_eq_true] at h1
+    rcases h1 with h | h
+    · rw [(numSegments_eq_zero_iff l).2 h] at hi; omega
+    · rw [(numSegments_eq_zero_iff m).2 h] at hj; omega
+  · -- disjoint rectangles: a common point would lie in both
+    refine iff_of_false (by simp) ?_
+    rintro ⟨i, hi, j, hj, p, hp1, hp2⟩
+    have := intersects_of_common _ _ p (onSeg_in_rect l hl i hi p hp1) (onSeg_in_rect m hm j hj p hp2)
+    simp [this] at h2
+  · simp only
+    rw [anyMeet_iff m l hl.1]
+    constructor
+    · rintro ⟨j, hj, i, hi, h⟩
+      exact ⟨i, hi, j, hj, (K.segsMeet_symm _ _ _ _).1 h⟩
+    · rintro ⟨i, hi, j, hj, h⟩
+      exact ⟨j, hj, i, hi, (K.segsMeet_symm _ _ _ _).1 h⟩
+  · exact anyMeet_iff l m hm.1
+
+theorem lineIntersectsLine_symm (l m : Line) (hl : Plain l) (hm : Plain m) :
+    l.intersectsLine m = m.intersectsLine l := by
+  rw [Bool.eq_iff_iff, lineIntersectsLine_iff l m hl hm, lineIntersectsLine_iff m l hm hl]
+  constructor
+  · rintro ⟨i, hi, j, hj, h⟩
+    exact ⟨j, hj, i, hi, (K.segsMeet_symm _ _ _ _).1 h⟩
+  · rintro ⟨j, hj, i, hi, h⟩
+    exact ⟨i, hi, j, hj, (K.segsMeet_symm _ _ _ _).1 h⟩
+
+/-- instance for series built by `mkSeries` without index -/
+theorem lineIntersectsLine_iff_mk (p q : Array Pt) :
+    Line.intersectsLine (mkSeries p false .none 0) (mkSeries q false .none 0) = true ↔
+      ∃ i, i < (mkSeries p false .none 0).numSegments ∧ ∃ j, j < (mkSeries q false .none 0).numSegments ∧
+        SegsMeet ((mkSeries p false .none 0).segmentAt i).a ((mkSeries p false .none 0).segmentAt i).b
+          ((mkSeries q false .none 0).segmentAt j).a ((mkSeries q false .none 0).segmentAt j).b :=
+  lineIntersectsLine_iff _ _ (mkSeries_plain _ _ _) (mkSeries_plain _ _ _)
+
+/-! ## Point -/
+
+theorem point_intersects_iff (p : Pt) :
+    (∀ q : Pt, (Geom.point p).intersects (.point q) = decide (p = q)) ∧
+    (∀ r : Box, (Geom.point p).intersects (.rect r) = r.containsPt p) ∧
+    (∀ l : Line, (Geom.point p).intersects (.line l) = l.containsPoint p) ∧
+    (∀ poly : Poly, (Geom.point p).intersects (.poly poly) = poly.containsPoint p) :=
+  ⟨fun _ => rfl, fun _ => rfl, fun _ => rfl, fun _ => rfl⟩
+
+/-- Point × Rect is the specification's membership -/
+theorem point_intersects_rect_spec (p : Pt) (r : Box) :
+    (Geom.point p).intersects (.rect r) = (Spec.Shape.rect r.min r.max).member p := by
+  simp only [Geom.intersects, Pt.intersectsRect, Box.containsPt, Spec.Shape.member, ge_iff_le]
+
+def Geom.isPoint : Geom → Bool | .point _ => true | _ => false
+def Geom.isRect : Geom → Bool | .rect _ => true | _ => false
+def Geom.isPoly : Geom → Bool | .poly _ => true | _ => false
+
+theorem geom_intersects_symm_pointrect (a b : Geom)
+    (h : a.isPoint = true ∨ b.isPoint = true ∨ (a.isRect = true ∧ b.isRect = true)) :
+    a.intersects b = b.intersects a := by
+  cases a <;> cases b <;> simp only [Geom.isPoint, Geom.isRect, Bool.false_eq_true, or_self,
+    and_self, and_false, false_and, or_false, false_or] at h <;>
+    first
+      | rfl
+      | (simp only [Geom.intersects]; rw [Bool.eq_iff_iff, decide_eq_true_eq, decide_eq_true_eq]; exact eq_comm)
+      | exact rect_intersects_symm _ _
+
+theorem geom_intersects_dispatch_symm (r : Box) (l : Line) (p : Poly) :
+    (Geom.line l).intersects (.poly p) = (Geom.poly p).intersects (.line l) ∧
+    (Geom.rect r).intersects (.line l) = (Geom.line l).intersects (.rect r) ∧
+    (Geom.rect r).intersects (.poly p) = (Geom.poly p).intersects (.rect r) :=
+  ⟨rfl, rfl, rfl⟩
+
+/-- every line component is un-indexed with the `processPoints` rectangle -/
+def Geom.PlainLine : Geom → Prop
+  | .line l => Plain l
+  | _ => True
+
+/-- `Geom.intersects` is symmetric on every pair of kinds except Poly × Poly -/
+theorem geom_intersects_symm_partial (a b : Geom) (ha : a.PlainLine) (hb : b.PlainLine)
+    (h : ¬ (a.isPoly = true ∧ b.isPoly = true)) : a.intersects b = b.intersects a := by
+  cases a <;> cases b <;> simp only [Geom.isPoly, and_self, not_true_eq_false] at h <;>
+    first
+      | rfl
+      | (simp only [Geom.intersects]; rw [Bool.eq_iff_iff, decide_eq_true_eq, decide_eq_true_eq]; exact eq_comm)
+      | exact rect_intersects_symm _ _
+      | exact lineIntersectsLine_symm _ _ ha hb
+
+/-! ## ring × segment: a `true` answer exhibits a common point -/
+
+/-- `s` any un-indexed series used as a ring; `hmem` is the soundness half of the C01
+    characterisation of `ringContainsPoint` (proved in Props/C01.lean). -/
+theorem ringIntersectsSegment_sound (s : Series) (hidx : s.index = none) (seg : Seg)
+    (allowOnEdge : Bool)
+    (hmem : ∀ p, (ringContainsPoint (.ser s) p allowOnEdge).hit = true →
+      Spec.inRing (Spec.edges s.pts.toList s.closed) p = true) :
+    ringIntersectsSegment (.ser s) seg allowOnEdge = true →
+      ∃ p, OnSeg seg.a seg.b p ∧ Spec.inRing (Spec.edges s.pts.toList s.closed) p = true := by
+  unfold ringIntersectsSegment ringIntersectsSegmentS
+  by_cases h1 : (!seg.box.intersects (Ring.ser s).rect) = true
+  · rw [if_pos h1]; intro h; cases h
+  rw [if_neg h1]
+  by_cases h2 : (ringContainsPoint (.ser s) seg.a allowOnEdge).hit = true
+  · rw [if_pos h2]; intro _; exact ⟨seg.a, K.onSeg_left _ _, hmem _ h2⟩
+  rw [if_neg h2]
+  by_cases h3 : (ringContainsPoint (.ser s) seg.b allowOnEdge).hit = true
+  · rw [if_pos h3]; intro _; exact ⟨seg.b, K.onSeg_right _ _, hmem _ h3⟩
+  rw [if_neg h3]
+  · simp only [decide_eq_true_eq]
+    rw [ring_search_eq (.ser s) hidx]
+    intro hc
+    by_contra hne
+    have hno : ∀ i ∈ visit (Ring.ser s).numSegments (Ring.ser s).segmentAt seg.box,
+        seg.intersects ((Ring.ser s).segmentAt i) = false := by
+      intro i hi
+      cases hx : seg.intersects ((Ring.ser s).segmentAt i) with
+      | false => rfl
+      | true =>
+        exfalso
+        apply hne
+        obtain ⟨p, hp1, hp2⟩ := (segIntersects_iff _ _).1 hx
+        exact ⟨p, hp1, inRing_of_onEdge s i (mem_visit.1 hi).1 p hp2⟩
+    rw [foldUntil_const _ _ (fun i hi st => by simp only [hno i hi, Bool.false_eq_true, if_false])] at hc
+    simp only at hc
+    omega
+
+/-- the statement for a closed ring built by `mkSeries` without index -/
+theorem ringIntersectsSegment_sound_mk (pts : Array Pt) (seg : Seg)
+    (hmem : ∀ p, (ringContainsPoint (.ser (mkSeries pts true .none 0)) p true).hit = true ↔
+      Spec.inRing (Spec.edges pts.toList true) p = true) :
+    ringIntersectsSegment (.ser (mkSeries pts true .none 0)) seg true = true →
+      ∃ p, OnSeg seg.a seg.b p ∧ Spec.inRing (Spec.edges pts.toList true) p = true :=
+  ringIntersectsSegment_sound (mkSeries pts true .none 0) (mkSeries_plain pts true 0).1 seg true
+    (fun p h => (hmem p).1 h)
+
+end Geo
+
+#print axioms Geo.rect_intersects_rect_iff
+#print axioms Geo.rect_intersects_rect_illformed
+#print axioms Geo.rect_intersects_symm
+#print axioms Geo.lineIntersectsLine_iff
+#print axioms Geo.lineIntersectsLine_symm
+#print axioms Geo.lineIntersectsLine_iff_mk
+#print axioms Geo.point_intersects_iff
+#print axioms Geo.point_intersects_rect_spec
+#print axioms Geo.geom_intersects_symm_pointrect
+#print axioms Geo.geom_intersects_dispatch_symm
+#print axioms Geo.geom_intersects_symm_partial
+#print axioms Geo.ringIntersectsSegment_sound
+#print axioms Geo.ringIntersectsSegment_sound_mk
